@@ -4,6 +4,8 @@ from . import c08
 
 
 def run(ses, rep):
+    if rep.tier != "quick":
+        ignoremodel.K_TOKENS, ignoremodel.K_LINES, ignoremodel.VISITS = 3, 3, 14
     rep.assumptions += ["node positions are byte offsets with end = offset after the last byte (full_moon); the range is inclusive (Range doc comment)",
                         "to_owned()/clone() of a full_moon node is lossless (full_moon contract)"]
     rep.outside += ["statements wholly inside the range come out as in whole-file formatting (needs the whole formatter; replay scenarios only)",
